@@ -332,7 +332,7 @@ def run_announce_history(ops):
                 ab = [o for o in iut.app.outcomes[n_out:] if o[1] == "abort" and o[2] == inv]
                 if not ab:
                     fails.append(("hist:nothing-sent-and-no-abort", "%s; a request of %d octets produced neither a frame nor an abort" % (desc, total)))
-                elif total <= v["max_apdu"] and not v.get("npdu"):
+                elif total <= v["max_apdu"] and not any(o_[0] == "npdu" for o_ in ops):      # (an NPDU limit noted by the application travels with the record)
                     fails.append(("hist:aborted-although-it-fits", "%s; a request of %d octets was aborted locally (reason %r)" % (desc, total, ab[0][3])))
             elif total > v["max_apdu"] and not v["can_receive"]:
                 pass     # (already reported above as too long or as segmented)
